@@ -271,6 +271,21 @@ func specInScope(stack []scope, n int, s scope) bool {
 //@   loop 4 exit[C09] every-imported-edge-of-this-caller-merged: forall(k, 0, len(usedFuncs), inList(get(p.usedFuncs, funcName), usedFuncs[k]))
 //@   loop 5 invariant[C09] imported-top-level-code-kept: len(statements) >= specCountOther(statementsTemp, rangeindex + 1)
 //
+// Lexical scoping rests on this frame: no parsing function changes a context map that existed
+// when it was called (blocks, loop headers and function bodies work on clones), so a definition
+// made inside a construct can never become visible to its caller.  The call graph p.usedFuncs
+// is a map of another sort and is meant to be shared.
+//@ postcondition (*Parser) [C07] callers-contexts-untouched: mapsKept("Mp_String_S_parser_Variable") && mapsKept("Mp_String_S_parser_FunctionDefinition") && mapsKept("Mp_String_String")
+//
+//@ func (*Parser).evaluateImports
+//@   flag nocommon: true
+//@ func (*Parser).evaluateProgram
+//@   flag nocommon: true
+//@ func (*Parser).parse
+//@   flag nocommon: true
+//@ func (*Parser).Parse
+//@   flag nocommon: true
+//
 //@ define inList(l, x): exists(i, 0, len(l), l[i] == x)
 //@ define calleesOf(p, f): get(p.usedFuncs, strings.TrimSpace(f))
 //
